@@ -307,7 +307,7 @@ def run(rep):
             ens_site = st[0]
             for pn in ("fmat", "ranks"):
                 v = st[0].args.get(pn)
-                rep.check(v is not None and v[1].fresh and v[1].init == ("zeros",), "R10.b", "stat/metrics.py", fname, f"`{pn}` is a fresh zero array", "", line=st[0].call.lineno)
+                xlayer.check_init(rep, v, ("zeros",), "R10.b", "stat/metrics.py", fname, f"`{pn}` is a fresh zero array", st[0].call.lineno)
         else:
             v = st[0].args.get("unifdata")
             rep.check(v is not None and v[1].fresh, "R10.d", "stat/metrics.py", fname, "the kernel sorts in place: it receives a copy of the caller's data",
